@@ -9,6 +9,13 @@ checks, na = [], []
 for p in props:
     pid = p["id"]
     c = claims.get(pid)
+    if c and c.get("claimed") and c.get("category") == "proof":
+        # a property without a theorem in its Props file is not claimed at proof level
+        import re
+        pf = os.path.join(root, "lean", "PvlModel", "Props", pid + ".lean")
+        src = open(pf).read() if os.path.exists(pf) else ""
+        if not re.search(r"^\s*theorem\s", src, re.M):
+            c = dict(c, category="translation_validation")
     if c and c.get("claimed"):
         checks.append({
             "property_id": pid,
